@@ -86,7 +86,10 @@ def _load_findings():
 def _replay_path(pid, inv, seed):
     d = os.path.join(VERIF, 'replays')
     os.makedirs(d, exist_ok=True)
+    import hashlib
     safe = ''.join(c if c.isalnum() or c in '-_' else '_' for c in inv)
+    if len(safe) > 48:
+        safe = safe[:40] + '_' + hashlib.sha1(inv.encode()).hexdigest()[:8]
     return os.path.join(d, f"{pid}-{safe}-{seed:016x}.json")
 
 
